@@ -96,7 +96,7 @@ def gen_x(rng, S, kind):
     raise ValueError(kind)
 
 
-def gen_outside_near(rng, S):
+def gen_outside_near(rng, S, dist=1.0):
     """a target OUTSIDE but near the gamut whose best fit lies in the relative interior of a facet (not at a vertex): a point of
     the facet with normal u (u orthogonal to nf-1 columns of A', generalised cross product; those sources strictly inside their
     bounds, every other source at the bound that maximises u.A'x) moved outwards along u by a distance in (0.5, 1]. It is outside
@@ -111,7 +111,46 @@ def gen_outside_near(rng, S):
     proj = u @ Ap
     x = np.where(proj > 0, ub, lb)
     x[free] = (lb + dyadic(rng, 0.25, 0.75, 3, size=ns) * (ub - lb))[free]
-    return Ap @ x + bp + u
+    return Ap @ x + bp + u * dist
+
+
+def gen_outside_hair(rng, S):
+    """a target that misses the gamut only by a hair: a point of its boundary (full white, or the relative interior of a facet as
+    in gen_outside_near) moved outwards by rel * (scale of the captures), rel log-uniform in 1e-9 .. 1e-3 -- seven or more orders
+    of magnitude above rounding, so in exact arithmetic no in-bound intensities reproduce it (the model confirms: no accepted
+    basic solution). Such targets arise from intensities a hair above the calibrated maximum or captures that went through
+    single precision. Returns (b, rel, where)."""
+    Ap, bp, ub = S["Ap"], S["bp"], S["ub"]
+    sc = float(np.max(np.abs(Ap) @ ub)) + 1.0
+    rel = float(10.0 ** rng.uniform(-9, -3))
+    if rng.random() < 0.4:
+        # A' is non-negative with no zero row: u = (1..1)/2 is maximised over the gamut by full white
+        return Ap @ ub + bp + rel * sc * 0.5 * np.ones(S["nf"]), rel, "white"
+    return gen_outside_near(rng, S, dist=rel * sc), rel, "facet"
+
+
+def judge_best_fit(R, pub, ApF, bprime, lbF, ubF, lo, hi, out_i, sig, where="", also=None):
+    """property clause: told to ignore or warn, an out-of-gamut target gets the best fit as both ends (both ends equal; the error
+    of the fit is not larger, beyond the existing tolerance, than that of an exhibited IN-BOUND point: the exact least-squares
+    solution on the answer's active set when it lies within the bounds (an active-set solution outside the bounds is no witness),
+    or `also`: another in-bound point, e.g. the answer of the single call for the same target, clipped to the bounds)"""
+    if not np.all(np.isfinite(lo)) or not np.array_equal(lo, hi):
+        R.failB(dict(pub, impl=out_i), "ignore/warn%s did not return the best fit as both ends" % where, sig + ":ends-differ")
+        return
+    wit = []
+    for tau in (1e-4, 1e-3, 1e-2):
+        xs = exactqp.candidate_optimum(ApF, bprime, lbF, ubF, lo, tau)
+        if xs is not None and all(l <= v <= u for v, l, u in zip(xs, lbF, ubF)):
+            wit.append(xs); break
+    if also is not None and np.all(np.isfinite(also)):
+        wit.append([min(max(F(float(v)), l), u) for v, l, u in zip(also, lbF, ubF)])
+    R.count("best-fit%s:in-bound witnesses=%d" % (where and ":batch-row", len(wit)))
+    fi = exactqp.obj(ApF, bprime, [F(float(v)) for v in lo])
+    for xs in wit:
+        fo = exactqp.obj(ApF, bprime, xs)
+        if float(fi) ** 0.5 > float(fo) ** 0.5 + 2e-2:
+            R.failB(dict(pub, impl=out_i, better_in_bound_fit=[float(v) for v in xs]), "ignore/warn%s returned a fit with error %.6g, a better in-bound fit has %.6g" % (where, float(fi) ** 0.5, float(fo) ** 0.5), sig + ":not-best-fit")
+            return
 
 
 def judge_spaced(R, pub, S, Xs, bprime, sig, where=""):
@@ -186,7 +225,10 @@ def run(R):
     nsys = 14 if R.tier == "quick" else 300
     R.rule = ("under-determined systems 2-4 receptors + 1-3 surplus sources, small-integer A (boundary targets exactly "
               "representable), lb zero/positive, finite ub, K none/scalar/vector, baseline; targets strictly inside, black, "
-              "white, one saturated source, half of one source, faces, far outside, and outside within distance 1 of a facet (best fit inside the facet); spaced solutions n in 2..10. One third of the systems "
+              "white, one saturated source, half of one source, faces, far outside, outside within distance 1 of a facet (best fit inside the facet), and outside by a hair "
+              "(beyond full white or beyond a facet by 1e-9..1e-3 of the capture scale: must raise / give the best fit like any out-of-gamut target); the out-of-gamut "
+              "targets of a system are also asked as one 2-d batch mixed with strictly-inside rows in random order under error='ignore'/'warn', half with n given "
+              "(each out-of-gamut row must get its own best fit as both ends and as its only solution, each inside row its exact extent); spaced solutions n in 2..10. One third of the systems "
               "has whole-number data throughout (bounds, baseline, K) and every argument reaches dreye in a randomly chosen legitimate "
               "representation (integer dtype / list of ints when whole, a plain number for constant bounds, Fortran order, strided view, "
               "list; the model receives the values); the in-gamut targets of a system are also asked as one 2-d batch, half of the batches with "
@@ -195,7 +237,7 @@ def run(R):
               "(enumeration of basic solutions in Q) is compared with dreye's ends; the model's ends are certified extremal by "
               "LP-dual multipliers checked by the verified linLower (theorems lower/upper_end_of_cert) and attained (range_ends). "
               "Non-trivial: at least two accepted candidates or a boundary target.")
-    kinds = ["inside", "inside", "black", "white", "one_saturated", "half_of_one", "face", "outside", "outside_near"]
+    kinds = ["inside", "inside", "black", "white", "one_saturated", "half_of_one", "face", "outside", "outside_near", "outside_hair"]
     jobs = []
     for si in range(nsys):
         k = "s%d" % si
@@ -214,6 +256,9 @@ def run(R):
                 b[rng.integers(nf)] += float(np.sum(np.abs(S["Ap"]) * (S["ub"] - S["lb"])))   # beyond the extent
             elif kind == "outside_near":
                 b = gen_outside_near(R.rng(4, si), S)
+            elif kind == "outside_hair":
+                b, hair_rel, hair_where = gen_outside_hair(R.rng(6, si), S)
+                R.count("outside_hair:%s:1e%d" % (hair_where, int(np.floor(np.log10(hair_rel)))))
             else:
                 x = gen_x(rng, S, kind)
                 b = S["Ap"] @ x + S["bp"]
@@ -224,6 +269,8 @@ def run(R):
                 b = np.array([float(v + b0) for v, b0 in zip(bprime, bpF)])
             c = dict(k="%s_%d" % (k, ti), kind=kind, decimal=S["decimal"], whole=S["whole"], nf=nf, ns=ns, A=S["A"], K=S["K"], K_kind=S["K_kind"], baseline=S["baseline"],
                      lb=S["lb"], ub=S["ub"], b=b, n_spaced=nsp)
+            if kind == "outside_hair":
+                c["outside_by_relative"] = hair_rel; c["outside_beyond"] = hair_where
             if not R.want(c["k"]) and not R.want(k):
                 continue
             # representation of the arguments (implementation side only; the model gets the values): own random stream per case
@@ -301,6 +348,32 @@ def run(R):
                     except Exception as e:  # noqa: BLE001  (judged as a shape failure)
                         j[0]["_batch_spaced"] = "no spaced solutions for row %d of the batch: %r" % (r_, e)
                     j[0]["_batch_n"] = nb_sp
+        # out-of-gamut targets and strictly-inside targets of the system as ONE 2-d batch, told to ignore / warn: every out-of-gamut
+        # row gets ITS best fit as both ends, every inside row its exact extent; rows in random order; half of the batches with n
+        outjobs = [j for j in jobs if j[1] is S and j[2].startswith("outside")]
+        injobs = [j for j in jobs if j[1] is S and j[2] == "inside" and j[8] == "ok"]
+        if len(outjobs) >= 2 and R.want(k):
+            rr = R.rng(7, si)
+            rows = outjobs + injobs[:int(rr.integers(0, 3))]
+            rows = [rows[i] for i in rr.permutation(len(rows))]
+            Bm = np.array([j[0]["b"] for j in rows])
+            n_ob = None if rr.random() < 0.5 else int(rr.integers(2, 5))
+            err = str(rr.choice(["ignore", "warn"]))
+            R.count("mixed-batch:rows=%d:outside=%d:n=%s" % (len(rows), len(outjobs), "none" if n_ob is None else "given"))
+            with warnings.catch_warnings():
+                warnings.simplefilter("ignore")
+                stb, outb = call(range_of_solutions, give(rr, Bm, R, "B"), give(rr, S["A"], R, "A"), give(rr, S["lb"], R, "lb"), give(rr, S["ub"], R, "ub"),
+                                 K=give(rr, S["K"], R, "K"), baseline=give(rr, S["baseline"], R, "baseline"), error=err, **({} if n_ob is None else dict(n=n_ob)))
+            drain()
+            for r_, j in enumerate(rows):
+                ob = dict(st=stb, out=outb if stb != "ok" else None, n=n_ob, error=err, row=r_, sys=k, B=Bm)
+                if stb == "ok":
+                    try:
+                        ob["lo"] = np.asarray(outb[0], dtype=float)[r_]; ob["hi"] = np.asarray(outb[1], dtype=float)[r_]
+                        ob["spaced"] = outb[2][r_] if n_ob is not None else None
+                    except Exception as e:  # noqa: BLE001  (judged as a failure of the batch call)
+                        ob["st"] = "bad-shape"; ob["out"] = "result of the batch call cannot be read row-wise: %r" % (e,)
+                j[0]["_obatch"] = ob
     R.driver.run()
     second = []
     for job in jobs:
@@ -342,16 +415,24 @@ def run(R):
             if st_i != "ok":
                 R.failB(dict(pub, impl_error=out_i), "error='ignore'/'warn' raised: %s" % (out_i,), sig + ":ignore-raises")
             else:
-                lo, hi = np.asarray(out_i[0]), np.asarray(out_i[1])
-                if not np.array_equal(lo, hi):
-                    R.failB(dict(pub, impl=out_i), "ignore/warn did not return the best fit as both ends", sig + ":ends-differ")
+                judge_best_fit(R, pub, ApF, bprime, lbF, ubF, np.asarray(out_i[0]), np.asarray(out_i[1]), out_i, sig)
+            if "_obatch" in c:
+                # the same target as one row of a 2-d batch that mixes out-of-gamut and strictly-inside targets (error='ignore'/'warn')
+                ob = c["_obatch"]; pubb = dict(pub, k=ob["sys"], batch=ob["B"], batch_row=ob["row"], batch_error=ob["error"], batch_n=ob["n"])
+                if ob["st"] != "ok":
+                    R.failB(dict(pubb, impl_error=ob["out"]), "a batch with out-of-gamut rows raised with error=%r: %s" % (ob["error"], ob["out"]), sig + ":batch-ignore-raises")
                 else:
-                    # best fit: its prediction must be the optimum's (checked against the exact bounded LS optimum)
-                    xs = exactqp.candidate_optimum(ApF, bprime, lbF, ubF, lo, 1e-4)
-                    if xs is not None:
-                        fo = exactqp.obj(ApF, bprime, xs); fi = exactqp.obj(ApF, bprime, [F(v) for v in lo])
-                        if float(fi) ** 0.5 > float(fo) ** 0.5 + 2e-2:
-                            R.failB(dict(pub, impl=out_i), "ignore/warn returned a fit with error %.6g, a better in-bound fit has %.6g" % (float(fi) ** 0.5, float(fo) ** 0.5), sig + ":not-best-fit")
+                    judge_best_fit(R, pubb, ApF, bprime, lbF, ubF, ob["lo"], ob["hi"], [ob["lo"], ob["hi"]], sig + ":batch", where=" (row %d of a mixed batch)" % ob["row"],
+                                   also=(np.asarray(out_i[0], dtype=float) if st_i == "ok" else None))
+                    if ob["n"] is not None:
+                        # documented: with n given an out-of-gamut row gets its best fit as the only 'spaced' solution
+                        try:
+                            sp = np.asarray(ob["spaced"], dtype=float)
+                            oksp = sp.ndim == 2 and sp.shape[1] == ns and sp.shape[0] >= 1 and all(np.array_equal(r_, ob["lo"]) for r_ in sp)
+                        except (TypeError, ValueError):
+                            oksp = False
+                        if not oksp:
+                            R.failB(dict(pubb, spaced=repr(ob["spaced"])[:300], impl=[ob["lo"], ob["hi"]]), "mixed batch: the solutions returned for an out-of-gamut row are not its best fit", sig + ":batch:spaced-not-best-fit")
             continue
         # in-gamut target
         boundary = kind != "inside"
@@ -412,6 +493,16 @@ def run(R):
                     R.failB(dict(pub, impl_batch_row=[ob[0], ob[1]], model=[mins, maxs]),
                             "batch call: reported range of sources %s is not the exact extent: min=%s max=%s, exact min=%s max=%s" % (badb, ob[0].tolist(), ob[1].tolist(), [float(v) for v in mins], [float(v) for v in maxs]),
                             sig + ":wrong-extent:batch")
+        if "_obatch" in c:
+            ob = c["_obatch"]; pubb = dict(pub, k=ob["sys"], batch=ob["B"], batch_row=ob["row"], batch_error=ob["error"], batch_n=ob["n"])
+            if ob["st"] == "ok":
+                badb = [j for j in range(ns) if not close(ob["lo"][j], mins[j], rngw[j], RT) or not close(ob["hi"][j], maxs[j], rngw[j], RT)]
+                if badb:
+                    R.failB(dict(pubb, impl_batch_row=[ob["lo"], ob["hi"]], model=[mins, maxs]),
+                            "mixed batch (out-of-gamut rows, error=%r): reported range of sources %s of a strictly-inside row is not the exact extent: min=%s max=%s, exact min=%s max=%s" % (ob["error"], badb, ob["lo"].tolist(), ob["hi"].tolist(), [float(v) for v in mins], [float(v) for v in maxs]),
+                            sig + ":wrong-extent:mixed-batch")
+                if ob["n"] is not None:
+                    judge_spaced(R, dict(pubb, n_spaced=ob["n"]), S, ob["spaced"], bprime, sig, where=":mixed-batch")
         # the generating intensities lie between the ends
         if x is not None and (np.any(x < Xmin - 1e-9 * rngw) or np.any(x > Xmax + 1e-9 * rngw)):
             R.failB(dict(pub, impl=[Xmin, Xmax], solution=x), "a solution reproducing the target lies outside the reported range", sig + ":solution-outside-range")
